@@ -22,7 +22,7 @@ def mat(M):
 _DENS = (1, 2, 3, 4, 6, 8, 12, 16, 24, 32, 48, 64)
 
 
-def rationalise(x, tol=1e-11, bmax=48):
+def rationalise(x, tol=1e-10, bmax=48):
     """float -> normalised triple (a, b, d) with |x - (a + b sqrt3)/d| < tol, or (0, 0, 0) if there is none"""
     bs = np.arange(-bmax, bmax + 1)
     for d in _DENS:
@@ -37,7 +37,7 @@ def rationalise(x, tol=1e-11, bmax=48):
     return (0, 0, 0)
 
 
-def rat_mat(M, tol=1e-11):
+def rat_mat(M, tol=1e-10):
     return [[list(rationalise(float(x), tol)) for x in row] for row in np.asarray(M)]
 
 
